@@ -78,3 +78,30 @@ Proof.
   assert (Hn : ln 16 <> 0) by lra.
   pose proof (exp_ineq1 (ln 16) Hn) as H. rewrite exp_ln in H by lra. lra.
 Qed.
+
+(** Round 3.  The "textbook" factored form  likelihood ratio x tempered prior ratio  IS the rule over R
+    (exp a * exp b = exp (a + b)): a sampler that computes it takes the same decisions for real numbers.  It is NOT the
+    same float computation: each factor leaves the single-precision range of exp beyond +-88.7 / -104 (double: 709.8 / -745)
+    although the product is an ordinary number — that difference is invisible here and is the business of the directed
+    decisions of the search (large opposite changes of attachment and regularity). *)
+Lemma alpha_factored pa na pr nr tinv :
+  exp (pa - na) * exp ((pr - nr) * tinv) = alpha pa na pr nr tinv.
+Proof. unfold alpha, Dval. rewrite <- exp_plus. apply (f_equal exp). ring. Qed.
+
+Lemma rule_factored pa na pr nr tinv :
+  exp (pa - na) * exp ((pr - nr) * tinv) = exp (- ((na - pa) + tinv * (nr - pr))) /\
+  (forall u, u < exp (pa - na) * exp ((pr - nr) * tinv) <-> acceptb u (alpha pa na pr nr tinv) = true).
+Proof.
+  split.
+  - rewrite alpha_factored. apply alpha_eq.
+  - intros u. rewrite alpha_factored. symmetry. rewrite acceptb_true_iff, alpha_eq. reflexivity.
+Qed.
+
+(** non-vacuity / the discriminating case: attachment better by 100, tempered regularity worse by 100.5 — the rule's
+    threshold is exp(-1/2) (about 0.61, an ordinary number) while the two factors are exp(100) and exp(-100.5) *)
+Example ex_factored_ordinary : exp 100 * exp (- (201 / 2)) = exp (- (1 / 2)) /\ exp (- (1 / 2)) < 1.
+Proof.
+  split.
+  - rewrite <- exp_plus. apply (f_equal exp). lra.
+  - apply Rlt_le_trans with (exp 0); [apply exp_increasing; lra | rewrite exp_0; lra].
+Qed.
